@@ -5,7 +5,9 @@
 (*                                                                                        *)
 (* Data = [insts |-> instances (POMDP + controller), eps |-> episodes]; an episode is        *)
 (*   iid, s0 (initial state), given (1 iff the caller passed the initial state), maxsteps,   *)
-(*   ag0 (initial agent state, quantised), steps = <<[s, a, ns, o, rq, agq, nagq], ...>>,     *)
+(*   ag0 (initial agent state, quantised), steps = <<[s, a, ns, o, rq, agq, nagq, adq], ...>>,*)
+(*   (adq = controller.action_dist(agent state of the step), the distribution a was drawn    *)
+(*   from, quantised)                                                                       *)
 (*   last = [s, agq]  (the closing record of run_on)                                        *)
 (* States / actions / observations are abstract indices (1-based); agent states are         *)
 (* quantised as round(x * SA), rewards as round(r * SR).                                    *)
@@ -38,6 +40,10 @@ NSteps == Len(Ep.steps)
 Close(m, q, w) ==
   /\ NSum(m, w) > 0
   /\ \A n \in Nd(m) : AbsI(Safe(q[n] * NSum(m, w)) - Safe(w[n] * SA)) <= NSum(m, w)
+\* quantised action distribution q is the action mixture of the node weights w, within one unit
+CloseAct(m, q, w) ==
+  /\ NSum(m, w) > 0
+  /\ \A a \in Ac(m) : AbsI(Safe(q[a] * ActDen(m, w)) - Safe(ActW(m, w, a) * SA)) <= ActDen(m, w)
 AgVerdict(m, q, w, wn, old) ==
   IF old # "ok" THEN old
   ELSE IF Close(m, q, w) THEN "ok"
@@ -59,6 +65,9 @@ StepVerdict(m, e, s, w, wn, i, cap) ==
   ELSE IF m.P[s][e.a][e.ns] = 0 THEN "impossible-successor"
   ELSE IF m.O[e.a][e.ns][e.o] = 0 THEN "impossible-observation"
   ELSE IF e.rq # SR * m.R[s][e.a][e.ns] THEN "reward"
+  ELSE IF ~CloseAct(m, e.adq, w) THEN
+         (IF CloseAct(m, e.adq, wn) THEN "action-probabilities-given-history:unconditioned-on-action"
+          ELSE "action-probabilities-given-history")
   ELSE ""
 
 EndVerdict(m, e, s, cap) ==
@@ -109,9 +118,10 @@ Done == l = NSteps + 2
 Emit == Done => PrintT(ToJson([tid |-> tid, bad |-> bad, agv |-> agv, es |-> es]))
 
 \* ------------------------------------------------------------------ properties
-\* every recorded episode is an execution of the model: actions in the support of the controller's
-\* posterior action mixture, possible successors / observations, the model's rewards, no step from an
-\* absorbing state, and the loop only stops at an absorbing state or when the step budget is spent
+\* every recorded episode is an execution of the model: every action drawn from the controller's
+\* posterior action mixture given the history so far (support and probabilities), possible successors /
+\* observations, the model's rewards, no step from an absorbing state, and the loop only stops at an
+\* absorbing state or when the step budget is spent
 EpisodeAccepted == bad = ""
 \* the agent states logged along the episode are the node posteriors
 AgentStatesArePosteriors == agv = "ok"
